@@ -337,6 +337,24 @@ class Fn:
                 init = self.single_def(nd['d'])
                 if init:
                     return self.term(init, inline, depth + 1)
+            if dk == 'binding' and inline:
+                # a structured binding of an aggregate that is visible after helper expansion ({a, b} or pair(a, b)): its element
+                d = self.defs.get(nd['d'], {})
+                parent = d.get('binding_of')
+                pd = self.defs.get(parent, {}) if parent else {}
+                if pd.get('init') and not pd.get('writes'):
+                    sibs = sorted(k for k, v in self.defs.items() if v.get('binding_of') == parent)
+                    idx = sibs.index(nd['d']) if nd['d'] in sibs else None
+                    t0 = self.term(pd['init'], inline, depth + 1)
+                    while t0 and t0[0] == 'cast':
+                        t0 = t0[2]
+                    elems = None
+                    if t0 and t0[0] == 'init':
+                        elems = t0[1:]
+                    elif t0 and t0[0] == 'construct' and str(t0[1]) in ('std::pair', 'std::tuple'):
+                        elems = t0[2]
+                    if elems is not None and idx is not None and idx < len(elems) and len(elems) == len(sibs):
+                        return elems[idx]
             if dk in ('local', 'binding', 'static_local') and inline:
                 init = self.single_def(nd['d'])
                 if init:
@@ -624,4 +642,29 @@ def resolve_calls(unit, t, depth=0, containing=('std::lower_bound', 'std::upper_
                     return tuple(rep(y) for y in x)
                 return x
             return resolve_calls(unit, rep(body), depth + 1, containing)
+    return t
+
+
+def canon_minmax(t):
+    """`a < b ? a : b` and its seven siblings as std::min(a, b) / std::max(a, b) (the defining ternaries of the two algorithms)"""
+    if not isinstance(t, tuple):
+        return t
+    t = tuple(canon_minmax(x) if isinstance(x, tuple) else x for x in t)
+    if t and t[0] == 'cond' and len(t) == 4:
+        c = t[1]
+        while c and c[0] == 'cast':
+            c = c[2]
+
+        def sc(x):
+            while isinstance(x, tuple) and x and x[0] == 'cast':
+                x = x[2]
+            return x
+        if c[0] == 'op' and len(c) == 4 and c[1] in ('<', '<=', '>', '>='):
+            a, b, x, y = sc(c[2]), sc(c[3]), sc(t[2]), sc(t[3])
+            if {repr(x), repr(y)} == {repr(a), repr(b)} and repr(a) != repr(b):
+                less = c[1] in ('<', '<=')
+                picks_first = repr(x) == repr(a)
+                # a < b ? a : b -> min ; a < b ? b : a -> max ; a > b ? a : b -> max ; a > b ? b : a -> min
+                name = 'std::min' if (less == picks_first) else 'std::max'
+                return ('call', name, (a, b), None)
     return t
